@@ -190,6 +190,7 @@ def evalC19CancelledOwner (ins outs : List String) : Verdict :=
   | _, _, _, _ => .bad "C19 cancelledowner"
 
 def evalC19Flight (ins outs : List String) : Verdict :=
+  if kv? ins "kind" == some "coldstart" then evalColdStart ins outs else
   if kv? ins "kind" == some "stalepending" then evalStalePending ins outs else
   if kv? ins "kind" == some "cancelledowner" then evalC19CancelledOwner ins outs else
   if kv? ins "kind" == some "integrated" then evalC19Integrated ins outs else
